@@ -139,7 +139,7 @@ def run(ctx):
     drv = fw.build_harness("mc2_dep_drv", extra=DRV_FLAGS + ["-I" + fw.REPO + "/src/smpi/include"])
 
     def drive(lines):
-        rc, out, err = fw.run_lines(drv, ["--log=root.thres:critical"], lines, timeout=900)
+        rc, out, err = fw.run_lines(drv, ["--log=root.thres:critical"], lines, timeout=2400)
         if len(out) != len(lines):
             raise fw.BuildError("mc2_dep_drv answered %d lines for %d (rc %d): %s" % (len(out), len(lines), rc, err[-400:]))
         return out
@@ -152,7 +152,7 @@ def run(ctx):
             "comm_adjacent_verdicts": 0, "barrier_pairs": 0, "comm_pairs": 0, "comm_pairs_independent": 0, "model_counterexamples": 0}
 
     # ---- pairs through the real dispatch_depends
-    n = ctx.n(1500, 30000)
+    n = ctx.n(1500, 6000)
     pairs = []
     if rep:
         if rep.get("kind") == "pair":
